@@ -35,3 +35,9 @@ def import_cij():
     if not path.startswith(REPO + os.sep):
         raise HarnessError("cij imported from %s, expected under %s" % (path, REPO))
     return cij
+
+
+# keep the code under test quiet (its loggers write warnings for every calculation)
+import logging as _logging
+_logging.getLogger("cij").setLevel(_logging.ERROR)
+_logging.getLogger("cij.core.calculator").setLevel(_logging.ERROR)
